@@ -45,3 +45,5 @@ Lemma match_env_generic : gen_env_generic_empty = true.
 Proof. reflexivity. Qed.
 Lemma match_traits : gen_traits = model_traits.
 Proof. reflexivity. Qed.
+Lemma match_anyspecial : gen_anyspecial = model_anyspecial.
+Proof. reflexivity. Qed.
